@@ -24,7 +24,7 @@ ASSUMPTIONS = ['the accuracy clause is over a continuum and is decided on the st
 
 METHODS = ('hilbert', 'nht', 'quad')
 SRS = (1.0, 128.0, 1000.0)
-SCALES = (2.0 ** -6, 0.5, 1.0, 8.0, 1024.0)
+SCALES = (2.0 ** -40, 2.0 ** -6, 0.5, 1.0, 8.0, 1024.0, 2.0 ** 40)    # 2^-40 ~ 1e-12: absolute guards show up
 CYCLES = (5.0, 7.3, 20.5, 50.0, 85.0)
 AMPS = (0.01, 1.0, 100.0)
 PHI0 = tuple(np.arange(8) * np.pi / 4 + 0.1 * (np.arange(8) % 2))
@@ -65,6 +65,16 @@ def cases(tier, seed):
                 for m in METHODS:
                     for sr in SRS:
                         yield ('struct', (N, ncol, kind), m, sr, seed)
+    for N in b['Ns'][:2]:
+        for kind in ('plain', 'am', 'fm'):
+            for m in METHODS:
+                yield ('struct3d', (N, 3, kind), m, 128.0, seed)
+    for N in b['acc_N'][:1]:
+        for m in METHODS:
+            for sp in ('None', '3'):
+                for cyc in (7.3, 20.0):
+                    for p in b['phi'][::3]:
+                        yield ('acc', (N, cyc, 1.0, float(p)), m + '|' + sp, 128.0, seed)
     for N in b['acc_N']:
         for m in METHODS:
             for cyc in b['cycles']:
@@ -83,7 +93,7 @@ def decode_case(c):
 
 
 def check_case(case):
-    return {'trip': check_trip, 'struct': check_struct, 'acc': check_acc}[case[0]](case)
+    return {'trip': check_trip, 'struct': check_struct, 'acc': check_acc, 'struct3d': check_struct3d}[case[0]](case)
 
 
 def check_trip(case):
@@ -193,17 +203,48 @@ def check_struct(case):
     return Outcome(cls='struct', transitions=trans, viols=viols, nontrivial=ncol > 1)
 
 
+def check_struct3d(case):
+    """Second-level IMFs come as [samples x imfs x imfs2]: same shape out, and every 2-d slice is transformed as if alone."""
+    from emd.spectra import frequency_transform
+    _, name, m, sr, seed = case
+    X2 = struct_signal(name, seed)
+    X3 = np.stack([X2, X2[:, ::-1] * 0.5], axis=2)          # [N x 3 x 2]
+    tag = 'signal %r as [N x 3 x 2] method=%s' % (name, m)
+    viols = []
+    try:
+        out3 = [np.asarray(a) for a in frequency_transform(X3.copy(), sr, m)]
+    except Exception as e:
+        return Outcome(cls='struct3d', viols=[('struct3d:raise:%s' % type(e).__name__, '%s raised %r' % (tag, e))])
+    if not all(a.shape == X3.shape for a in out3):
+        return Outcome(cls='struct3d', viols=[('struct3d:shape', '%s: output shapes %r' % (tag, [a.shape for a in out3]))])
+    for k in range(X3.shape[2]):
+        out2 = [np.asarray(a) for a in frequency_transform(X3[:, :, k].copy(), sr, m)]
+        for nm, a3, a2 in zip(('phase', 'frequency', 'amplitude'), out3, out2):
+            if not np.allclose(a3[:, :, k], a2, rtol=1e-9, atol=1e-9):
+                viols.append(('struct3d:slice', '%s: %s of slice %d differs from transforming the slice alone (max diff %.3g)' % (
+                    tag, nm, k, np.max(np.abs(a3[:, :, k] - a2)))))
+                break
+    IP = out3[0]
+    if not (np.all(IP >= 0) and np.all(IP < 2 * np.pi)):
+        viols.append(('struct3d:phase-range', '%s: phase outside [0, 2pi)' % tag))
+    return Outcome(cls='struct3d', transitions=3, viols=viols, nontrivial=True)
+
+
 def check_acc(case):
     from emd.spectra import frequency_transform
     _, (N, cyc, a, phi0), m, sr, seed = case
+    kw = {}
+    if '|' in m:
+        m, sp = m.split('|')
+        kw['smooth_phase'] = None if sp == 'None' else int(sp)
     t = np.arange(N)
     theta = 2 * np.pi * cyc * t / N + phi0
     x = a * np.cos(theta)
     f_true = cyc / N * sr
-    tag = 'N=%d cycles=%g amp=%g phi0=%.3f method=%s sr=%g' % (N, cyc, a, phi0, m, sr)
+    tag = 'N=%d cycles=%g amp=%g phi0=%.3f method=%s sr=%g %r' % (N, cyc, a, phi0, m, sr, kw)
     viols = []
     try:
-        IP, IF, IA = [np.asarray(v)[:, 0] for v in frequency_transform(x[:, None].copy(), sr, m)]
+        IP, IF, IA = [np.asarray(v)[:, 0] for v in frequency_transform(x[:, None].copy(), sr, m, **kw)]
     except Exception as e:
         return Outcome(cls='acc', viols=[('acc:raise:%s' % type(e).__name__, '%s raised %r' % (tag, e))])
     lo, hi = int(0.2 * N), int(0.8 * N)
@@ -245,6 +286,6 @@ def snippet(case, kind):
 
 
 def nonvacuity(rep, ctx):
-    if not {'trip', 'struct', 'acc'} <= set(rep.classes):
+    if not {'trip', 'struct', 'acc', 'struct3d'} <= set(rep.classes):
         return ['vacuous: outcome classes %r' % dict(rep.classes)]
     return []
